@@ -73,7 +73,7 @@ func zzQuote(s string, lang syntax.LangVariant) (string, error) { return "'" + s
 //gosmt:stub github.com/go-task/task/v3/internal/filepathext.TryAbsToRel
 func zzTryAbsToRel(abs string) string { return abs }
 
-var zzInitNames = []string{"", "sub.yml", ".yaml", "dir", "x/y.yml", "x/.yml"}
+var zzInitNames = []string{"", "sub.yml", ".yaml", "dir", "x/y.yml", "x/.yml", ".", "x/."}
 
 func zzInitTarget(pos string) string {
 	switch pos {
@@ -84,6 +84,10 @@ func zzInitTarget(pos string) string {
 	case "dir":
 		return "/wd/dir/Taskfile.yml"
 	case "x/.yml": // an extension-only name keeps its directory
+		return "/wd/x/Taskfile.yml"
+	case ".": // the current directory is a directory, not an extension
+		return "/wd/Taskfile.yml"
+	case "x/.":
 		return "/wd/x/Taskfile.yml"
 	}
 	return "/wd/" + pos
@@ -150,6 +154,7 @@ func zzGetRootNode(e *task.Executor) (taskfile.Node, error) {
 //gosmt:stub (*github.com/go-task/task/v3.Executor).readTaskfile
 func zzReadTaskfile(e *task.Executor, node taskfile.Node) error {
 	e.Taskfile = zzTF
+	zzSeenDry, zzSawExecutor = e.Dry, true
 	return nil
 }
 
@@ -221,7 +226,8 @@ func ZZ_C19_CLI() {
 	zzDash = len(zzArgv)
 	zzArgv = append(zzArgv, post...)
 	zzTF = &ast.Taskfile{Version: semver.MustParse("3"), Vars: ast.NewVars(), Env: ast.NewVars(), Tasks: ast.NewTasks()}
-	cmds := []*ast.Cmd{{Cmd: "probe {{.CLI_ARGS}}"}, {Cmd: "probe2 {{.NAME}}"}}
+	// (a deferred command renders its text when it runs: it must see the same bytes)
+	cmds := []*ast.Cmd{{Cmd: "probe4 {{.CLI_ARGS}}", Defer: true}, {Cmd: "probe {{.CLI_ARGS}}"}, {Cmd: "probe2 {{.NAME}}"}}
 	if assign { // quoting an unset variable is a rendering error
 		cmds = append(cmds, &ast.Cmd{Cmd: "probe3 {{shellQuote .NAME}} {{q .NAME}} {{.NAME | q}}"})
 	}
@@ -236,6 +242,12 @@ func ZZ_C19_CLI() {
 			want += " "
 		}
 		want += "'" + a + "'"
+	}
+	// the deferred command runs last
+	n := len(zzCommands)
+	zz.Assert((n > 0 && zzCommands[n-1] == "probe4 "+want) || strings.Contains(val, "{{"), "forwarded-arguments-reach-a-deferred-command-uninterpreted")
+	if n > 0 && strings.HasPrefix(zzCommands[n-1], "probe4 ") {
+		zzCommands = zzCommands[:n-1]
 	}
 	if assign {
 		q := "'" + val + "'"
